@@ -8,3 +8,4 @@ import BS.Properties.C13
 #print axioms BS.Cache.evalNodesC_sim
 #print axioms BS.Cache.cached_run_refines
 #print axioms BS.Cache.FilesOK_nil
+#print axioms BS.Cache.demand_depends_on_view
